@@ -28,11 +28,11 @@ vars == <<base, cur, k>>
 Emit(tag, rec) == IF Export THEN PrintT("@@" \o tag \o "@@" \o ToJson(rec)) ELSE TRUE
 
 QuickYears == {1900, 1901, 1904, 1969, 1970, 1971, 1999, 2000, 2001, 2020, 2021,
-               2100, 2400, 9998, 9999}
+               2100, 2400, 9999}
 
 ThoroughYears == (1900..1912) \cup (1966..1974) \cup (1996..2004) \cup (2019..2030)
                  \cup (2096..2104) \cup (2396..2404) \cup (9990..9999)
-                 \cup {1900 + 97 * i : i \in 0..83}
+                 \cup {1900 + 291 * i : i \in 0..27}
 
 BasesOf(yy) == {<<yy, 1, 1>>, <<yy, 1, 2>>, <<yy, 2, 28>>, <<yy, 3, 1>>,
                 <<yy, 12, 30>>, <<yy, 12, 31>>}
@@ -74,6 +74,6 @@ StepLaw == /\ InRange(Num(cur) + 1) =>
 
 \* cases for the harness: every (base, k) pair with the date it must reach
 ExportArith ==
-  (k # 0 /\ (k % 7 = 0 \/ k \in {1, -1} \/ k = K \/ k = 0 - K \/ cur[3] = 1 \/ (cur[2] = 12 /\ cur[3] = 31))) =>
+  (k # 0 /\ (k % 14 = 0 \/ k \in {1, -1} \/ k = K \/ k = 0 - K \/ cur[3] = 1 \/ (cur[2] = 12 /\ cur[3] = 31))) =>
      Emit("ARITH", [b |-> base, k |-> k, e |-> cur, nb |-> Num(base), ne |-> Num(cur)])
 =============================================================================
